@@ -34,6 +34,7 @@ type Job struct {
 	Repeat    int     `json:"repeat,omitempty"`
 	Scenario  string  `json:"scenario,omitempty"`
 	NoShrink  bool    `json:"no_shrink,omitempty"`
+	ExactSeed uint64  `json:"exact_seed,omitempty"`
 }
 
 // Finding is a violation with its (minimised) plan.
@@ -162,6 +163,12 @@ func WorkerMain(t *testing.T, eng Engine) {
 		}
 		idx := i*job.Workers + job.Worker
 		seed := SeedFor(job.SeedBase, idx)
+		if job.ExactSeed != 0 {
+			if i > 0 {
+				break
+			}
+			seed = job.ExactSeed
+		}
 		sc := scen[idx%len(scen)]
 		plan := eng.Generate(job.Property, sc, seed, job.Tier)
 		out.InProgress, out.InProgressScenario = seed, sc
